@@ -151,7 +151,9 @@ fn worker(prop: &'static str, thorough: bool, seed: u64, first_run: u64, runs: u
         let mut rng = rng::Rng::for_run(seed, i, 0);
         let mut gstats = Probes::new();
         let (mut trace, cfg) = gen::Gen::generate(&mut rng, &preset, &mut gstats, i);
-        gen::add_hops(&mut trace, &mut rng::Rng::for_run(seed, i, 1), &preset, &mut gstats);
+        let mut lane1 = rng::Rng::for_run(seed, i, 1);
+        gen::add_hops(&mut trace, &mut lane1, &preset, &mut gstats);
+        gen::add_aborts(&mut trace, &mut lane1, &mut gstats);
         let res = Exec::run(&trace);
         out.probes.add(&gstats);
         out.probes.add(&res.probes);
@@ -316,6 +318,7 @@ fn shape(t: &Trace) -> String {
             Ev::Snapshot => s.push_str("snapshot"),
             Ev::Restore => s.push_str("restore"),
             Ev::Hop { .. } => s.push_str("hop"),
+            Ev::FeedAbort { .. } => s.push_str("abort"),
             Ev::Fork { .. } => s.push_str("fork"),
         }
     }
@@ -384,7 +387,9 @@ fn cmd_gen(a: &Args) -> i32 {
     let mut rng = rng::Rng::for_run(seed, run, 0);
     let mut st = Probes::new();
     let (mut trace, cfg) = gen::Gen::generate(&mut rng, &preset, &mut st, run);
-    gen::add_hops(&mut trace, &mut rng::Rng::for_run(seed, run, 1), &preset, &mut st);
+    let mut lane1 = rng::Rng::for_run(seed, run, 1);
+    gen::add_hops(&mut trace, &mut lane1, &preset, &mut st);
+    gen::add_aborts(&mut trace, &mut lane1, &mut st);
     let res = Exec::run(&trace);
     println!("{}", J::obj().set("knobs", cfg.to_json()).set("trace", trace.to_json()).pretty());
     for v in res.violations.iter() {
@@ -691,7 +696,7 @@ fn evidence_json(
     }
     cov.put("simulated_time_ns_finite_part", J::Str(p.sim_time_ns.to_string()));
     cov.put("infinite_clock_jumps", J::u(p.infinite_jumps));
-    cov.put("events", J::obj().set("deliveries", J::u(p.deliveries)).set("polls", J::u(p.polls)).set("resets", J::u(p.resets)).set("clock_advances", J::u(p.advances)).set("forks", J::u(p.forks)).set("snapshots", J::u(p.snapshots)).set("restores", J::u(p.restores)).set("bare_resets_inside_reset_storms", J::u(p.reset_storm_resets)).set("soak_loops", J::u(p.soak_loops)).set("steps_inside_soak_loops", J::u(p.soak_steps)).set("thread_hop_windows", J::u(p.thread_hop_windows)).set("calls_on_the_main_instance_executed_on_another_os_thread", J::u(p.calls_on_another_thread)).set("enc_cc14", J::u(p.enc_cc14)).set("enc_pn", J::u(p.enc_pn)).set("ingest_rejected", J::u(p.ingest_rejected)).set("ingest_mismatch", J::u(p.ingest_mismatch)).set("factory_rebuild_mismatch", J::u(p.factory_rebuild_mismatch)).set("accessor_mismatch", J::u(p.accessor_mismatch)).set("telemetry_mismatch", J::u(p.telemetry_mismatch)).set("garbled_text_parses_ok_plus_calls", J::u(p.garbled_parses)));
+    cov.put("events", J::obj().set("deliveries", J::u(p.deliveries)).set("polls", J::u(p.polls)).set("resets", J::u(p.resets)).set("clock_advances", J::u(p.advances)).set("forks", J::u(p.forks)).set("snapshots", J::u(p.snapshots)).set("restores", J::u(p.restores)).set("bare_resets_inside_reset_storms", J::u(p.reset_storm_resets)).set("soak_loops", J::u(p.soak_loops)).set("steps_inside_soak_loops", J::u(p.soak_steps)).set("scanner_debug_dumps", J::u(p.scanner_debug_dumps)).set("reported_message_debug_and_hash_checks", J::u(p.message_debug_hash_checks)).set("reported_message_hash_mismatch", J::u(p.message_hash_mismatch)).set("aborted_feeds", J::u(p.aborted_feeds)).set("aborted_feed_calls_that_unwound", J::u(p.aborted_feed_calls_unwound)).set("aborted_feed_calls_that_completed_and_were_rolled_back", J::u(p.aborted_feed_calls_completed_and_rolled_back)).set("thread_hop_windows", J::u(p.thread_hop_windows)).set("calls_on_the_main_instance_executed_on_another_os_thread", J::u(p.calls_on_another_thread)).set("enc_cc14", J::u(p.enc_cc14)).set("enc_pn", J::u(p.enc_pn)).set("ingest_rejected", J::u(p.ingest_rejected)).set("ingest_mismatch", J::u(p.ingest_mismatch)).set("factory_rebuild_mismatch", J::u(p.factory_rebuild_mismatch)).set("accessor_mismatch", J::u(p.accessor_mismatch)).set("telemetry_mismatch", J::u(p.telemetry_mismatch)).set("garbled_text_parses_ok_plus_calls", J::u(p.garbled_parses)));
     cov.put("reports", J::obj().set("cc14", J::u(p.reports_cc14)).set("pn", J::u(p.reports_pn)).set("polling_feed", J::u(p.reports_polling_feed)).set("polling_poll", J::u(p.reports_polling_poll)));
     let mut ff = J::obj();
     let mut fl = J::obj();
